@@ -6,6 +6,7 @@ import Nstd.Path.FsRename
 import Nstd.Path.FsCreateOk
 import Nstd.Path.FsRoundtrip
 import Nstd.Path.FsWf
+import Nstd.Path.FsList
 /-
   Property C19, file-system part: theorems about the algorithms of File.cpp / Directory.cpp
   (Nstd/Path/FsLib.lean) over the ASSUMED POSIX semantics of Nstd/Path/Fs.lean, for all worlds
@@ -213,6 +214,27 @@ theorem history_rename_bytes_exact (ops : List FsOp) (frm to : Bytes) (fie : Boo
       (∀ q, q ≠ pt → q ≠ pf → (fileRename (fsRun initFs ops) frm to fie).1.get q = (fsRun initFs ops).get q) :=
   rename_bytes_exact _ frm to fie (wf_run ops).1 pf e hsrc he h
 
+/-- Directory::open + Directory::read (no pattern) on a plain directory of a well-formed world: the listing
+    contains exactly the entries of the directory, every name once; the is-directory flag is true for
+    directories and for symbolic links that `stat` resolves to a directory, false otherwise. -/
+theorem listing_exact (fs : Fs) (hwf : WF fs) (dir : Bytes) (d : CPath) (hpp : PlainParent fs dir d)
+    (hg : fs.get d = some .dir) :
+    ∃ l, dirList fs dir = some l ∧
+      (∀ n b, (n, b) ∈ l ↔ ∃ e, fs.get (d ++ [n]) = some e ∧ b = listedAsDir fs dir n e) ∧
+      List.Pairwise (fun a b : Name × Bool => a.1 ≠ b.1) l :=
+  dirList_plain fs hwf dir d hpp hg
+
+/-- File::rename(from, to, false) of a DIRECTORY that reports success (world satisfying the invariant of all
+    histories): either source and destination are the same entry, or the whole subtree now hangs at the
+    destination `pt` (`get (pt ++ r) = old get (pf ++ r)`), nothing is left below the source, and every
+    other path is unchanged. -/
+theorem rename_directory_moves_subtree (fs : Fs) (hinv : WF fs ∧ fs.get cwd = some .dir) (frm to : Bytes) (pf : CPath)
+    (hrf : resolve fs frm false = .found pf .dir) (h : (fileRename fs frm to false).2 = true) :
+    (fileRename fs frm to false).1 = fs ∨
+    ∃ pt, ¬ pf <+: pt ∧ ∀ q, (fileRename fs frm to false).1.get q =
+      if pt <+: q then fs.get (pf ++ q.drop pt.length) else if pf <+: q then none else fs.get q :=
+  rename_directory_exact fs hinv frm to pf hrf h
+
 /-! non-vacuity -/
 /-- a world with a tree `/s/a` (file, sub-directory with a file, link to the outside directory `/o/od`) -/
 def exWorld : Fs :=
@@ -225,6 +247,8 @@ example : WF exWorld :=
 example : PlainParent exWorld [97] [[115], [97]] :=
   ⟨by decide, [], [97], by decide, trivial, by decide, by decide, by decide⟩
 example : (dirUnlinkTop exWorld [97] true).2 = true := by decide
+example : (fileRename exWorld [97] [99] false).2 = true := by decide
+example : (dirList exWorld [97]).isSome = true := by decide
 example : (dirUnlinkTop exWorld [97] true).1.get [[111], [111, 100], [120]] = some (.file [88]) := by decide
 example : (fileRename ⟨[([[115]], .dir)]⟩ [122] [110] true).2 = false := by decide
 example : (fileRename exWorld [97, 47, 102] [104] true).2 = true := by decide
